@@ -1336,11 +1336,27 @@ def gen_loss_case(S, tier, prop, kinds, classes=None, allow_targets=True, nloss=
                                       "method": srng.choice([None, None, "lsoda", "vode", "dopri5"]) if kind != "gradient" else None})
                     else:
                         calls.append({"op": "curv", "id": d["id"], "which": kind, "free": free})
+                    if iv and srng.random() < 0.35:
+                        # a profile over the initial values: the same parameters again, other initial values
+                        npar_ = len(d["target_param"]) if d.get("target_param") is not None else ref.p
+                        f2 = free_vector(srng, ref, d, box, x0, truth=None, with_iv=True)
+                        second = copy.deepcopy(calls[-1])
+                        second["free"] = list(free[:npar_]) + list(f2[npar_:])
+                        second.pop("at_truth", None)
+                        second["follows"] = True           # stays directly behind the call before it
+                        calls.append(second)
                     if kind in ("cost", "residual", "sensitivity", "gradient", "jac", "jtj", "hessian") and srng.random() < 0.3:
                         # called without an argument: at the parameters the object was last given (used only
                         # when an earlier call gave it some; otherwise the explicit vector is passed)
                         calls[-1]["use_stored"] = True
-            srng.shuffle(calls)
+            groups = []
+            for c in calls:
+                if c.pop("follows", False) and groups:
+                    groups[-1].append(c)
+                else:
+                    groups.append([c])
+            srng.shuffle(groups)
+            calls = [c for g in groups for c in g]
             sched = []
             for c in calls:
                 if srng.random() < 0.4:
